@@ -78,7 +78,7 @@ func init() {
 		// a terminal notification issued by the producer itself - from one of several goroutines, through
 		// every constructor flavour - must close the subscription and release the source once the call returned
 		Name:   "C03.term",
-		Props:  []string{"C03", "C07", "C13"},
+		Props:  []string{"C03", "C06", "C07", "C13"},
 		Weight: 2,
 		Gen: func(g *Gen) *Scn {
 			sc := &Scn{Family: "C03.term"}
@@ -128,6 +128,7 @@ func init() {
 				return
 			}
 			if !h.Sub().IsClosed() {
+				e.Violate("C06", "never-closed-after-terminal", fmt.Sprintf("the stream ended by itself (the producer's terminal call returned) but the subscription never reports closed: Wait and Collect would hang (trace %s)", rec.Trace()))
 				e.Violate("C03", "open-after-terminal", fmt.Sprintf("every producer call returned, one of them a terminal notification, but the subscription is still open (trace %s)", rec.Trace()))
 			}
 			if s.Live != 0 || s.Teardowns != 1 {
@@ -159,6 +160,9 @@ func init() {
 			sc.SetInt("error", g.Intn(2))
 			sc.SetInt("add", g.Range(0, 2))
 			sc.SetInt("addlate", g.Intn(2))
+			// re-entrancy: a teardown touches the subscription that is being disposed
+			// (1: teardown 0 adds a follow-up teardown, 2: teardown 0 asks IsClosed, 3: a late-added teardown adds a follow-up)
+			sc.SetInt("reent", g.PickInt(0, 0, 1, 2, 3))
 			return sc
 		},
 		Run: runTeardownRace,
@@ -324,18 +328,30 @@ func runTeardownRace(e *Env) {
 	mask := sc.Int("panicmask", 0)
 	counts := make([]int, nt+3)
 	lastRun := -1
-	mk := func(i int) func() {
+	reent := sc.Int("reent", 0)
+	var sub ro.Subscription
+	var mk func(i int) func()
+	mk = func(i int) func() {
 		return func() {
 			counts[i]++
 			lastRun = e.Step()
 			e.K.Log(fmt.Sprintf("teardown %d", i))
 			e.Yield()
+			if counts[i] == 1 && ((i == 0 && reent == 1) || (i == nt && reent == 3)) {
+				// disposal has begun: the follow-up teardown runs at once
+				sub.Add(mk(nt + 2))
+				if counts[nt+2] != 1 {
+					e.Violate("C03", "add-after-disposal", fmt.Sprintf("a teardown added by teardown %d while the subscription was being disposed had run %d times when Add returned (want 1, immediately)", i, counts[nt+2]))
+				}
+			}
+			if counts[i] == 1 && i == 0 && reent == 2 && !sub.IsClosed() {
+				e.Violate("C03", "open-during-disposal", "IsClosed() asked from a teardown reported an open subscription")
+			}
 			if i < nt && mask&(1<<uint(i)) != 0 {
 				panic(ScriptError(80 + i))
 			}
 		}
 	}
-	var sub ro.Subscription
 	var ser ro.Subscriber[int]
 	rec := e.NewRec("o")
 	switch sc.Sub {
@@ -409,6 +425,11 @@ func runTeardownRace(e *Env) {
 		if !a.Done() && a != e.K.Cur() {
 			e.Violate("C03", "race-deadlock", fmt.Sprintf("actor %s is %s on %s at quiescence", a.Site, a.State(), a.PendingKind()))
 			return
+		}
+	}
+	if (reent == 1 && counts[0] > 0) || (reent == 3 && counts[nt] > 0) {
+		if counts[nt+2] != 1 {
+			e.Violate("C03", "teardown-count", fmt.Sprintf("the follow-up teardown added from a running teardown ran %d times (want exactly 1; sub=%s)", counts[nt+2], sc.Sub))
 		}
 	}
 	for i := 0; i < nt+sc.Int("add", 0); i++ {
